@@ -28,6 +28,11 @@ var baselineFuncs string
 // struct fields that were renamed (matched by name first, then by type and position among the unmatched ones).
 var fieldAlias = map[string]map[string]string{}
 
+// passThrough: (struct type, field name) pairs that select a helper struct the reference tree does not have - fields
+// of a reference struct were moved into it (embedded or not). Such a selection is transparent: the helper's fields
+// are aliased to the reference struct's fields they replace, and the selection itself has no name.
+var passThrough = map[string]bool{}
+
 // fnAlias maps a function to the baseline key it stands for.
 var fnAlias = map[*ssa.Function]string{}
 
@@ -71,6 +76,9 @@ func fingerprint(f *ssa.Function) string {
 			for _, in := range b.Instrs {
 				if _, ok := in.(*ssa.DebugRef); ok {
 					continue
+				}
+				if fa, ok := in.(*ssa.FieldAddr); ok && fieldName(fa) == "" && derefStruct(fa.X.Type()) != nil {
+					continue // selection of a pass-through helper struct
 				}
 				fmt.Fprintf(&sb, "%T", in)
 				switch x := in.(type) {
@@ -245,6 +253,48 @@ func (p *Program) resolveFieldRenames() {
 					aliasNotes = append(aliasNotes, fmt.Sprintf("[%s] field %s.%s of the reference tree is %s.%s in this tree", p.Cfg, tname, cands[pick].name, tname, f.Name()))
 				}
 			}
+			// fields of the reference struct that are still unaccounted for may have moved into a helper struct
+			// that the reference tree does not know (embedded or held in a field)
+			for i := 0; i < st.NumFields(); i++ {
+				f := st.Field(i)
+				ht := f.Type()
+				if pt, ok := ht.(*types.Pointer); ok {
+					ht = pt.Elem()
+				}
+				hn, ok := ht.(*types.Named)
+				if !ok || hn.Obj().Pkg() == nil || !strings.HasPrefix(hn.Obj().Pkg().Path(), modPath) {
+					continue
+				}
+				hst, ok := hn.Underlying().(*types.Struct)
+				hname := typeName(hn)
+				if !ok || len(base[hname]) > 0 || baseNames[f.Name()] {
+					continue // not a struct, or a struct (or field) the reference tree already has
+				}
+				moved := false
+				for j := 0; j < hst.NumFields(); j++ {
+					hf := hst.Field(j)
+					ts := types.TypeString(hf.Type(), nil)
+					var cands []bf
+					for _, b := range bfs {
+						if !curNames[b.name] && !used[b.name] && b.typ == ts {
+							cands = append(cands, b)
+						}
+					}
+					if len(cands) != 1 {
+						continue
+					}
+					used[cands[0].name] = true
+					moved = true
+					if fieldAlias[hname] == nil {
+						fieldAlias[hname] = map[string]string{}
+					}
+					fieldAlias[hname][hf.Name()] = tname + "." + cands[0].name
+					aliasNotes = append(aliasNotes, fmt.Sprintf("[%s] field %s.%s of the reference tree is %s.%s (helper struct held in %s.%s) in this tree", p.Cfg, tname, cands[0].name, hname, hf.Name(), tname, f.Name()))
+				}
+				if moved {
+					passThrough[tname+"."+f.Name()] = true
+				}
+			}
 		}
 	}
 }
@@ -259,10 +309,22 @@ func aliasedField(tname, name string) string {
 	return name
 }
 
+// qualifiedField is "type.field" in reference-tree terms ("" for the selection of a pass-through helper struct).
+func qualifiedField(tname, name string) string {
+	if passThrough[tname+"."+name] {
+		return ""
+	}
+	a := aliasedField(tname, name)
+	if strings.Contains(a, ".") {
+		return a // moved from another struct: already qualified
+	}
+	return tname + "." + a
+}
+
 func baselineLines(p *Program) []string {
 	var out []string
 	for k, f := range p.topLevel() {
-		out = append(out, p.Cfg.String()+"\t"+k+"\t"+fingerprint(f))
+		out = append(out, p.Cfg.String()+"\t"+k+"\t"+fingerprint(f)+"\t"+types.TypeString(f.Signature.Results(), nil))
 	}
 	sort.Strings(out)
 	return append(out, structLines(p)...)
@@ -287,10 +349,14 @@ func firstParamNamed(f *ssa.Function) string {
 func (p *Program) resolveRenames() {
 	p.resolveFieldRenames()
 	base := map[string]string{}
+	baseResults := map[string]string{}
 	for _, ln := range strings.Split(baselineFuncs, "\n") {
 		parts := strings.Split(ln, "\t")
-		if len(parts) == 3 && parts[0] == p.Cfg.String() {
+		if (len(parts) == 3 || len(parts) == 4) && parts[0] == p.Cfg.String() {
 			base[parts[1]] = parts[2]
+			if len(parts) == 4 {
+				baseResults[parts[1]] = parts[3]
+			}
 		}
 	}
 	if len(base) == 0 {
@@ -306,10 +372,12 @@ func (p *Program) resolveRenames() {
 	sort.Strings(missing)
 	fresh := map[string]*ssa.Function{}
 	fp := map[string]string{}
+	resultSig := map[string]string{}
 	for k, f := range cur {
 		if _, ok := base[k]; !ok {
 			fresh[k] = f
 			fp[k] = fingerprint(f)
+			resultSig[k] = types.TypeString(f.Signature.Results(), nil)
 		}
 	}
 	claimed := map[string]bool{}
@@ -349,6 +417,23 @@ func (p *Program) resolveRenames() {
 				return !strings.HasPrefix(k, "(") && firstParamNamed(fresh[k]) == recv
 			}
 			return strings.HasPrefix(k, "(") // function became a method
+		})
+	}
+	// last resort: the same bare name and the same result types, exactly one candidate (a function whose signature
+	// was reshaped - receiver dropped, parameters regrouped - but which kept its name)
+	for _, m := range rest {
+		if func() bool {
+			for _, a := range fnAlias {
+				if a == m {
+					return true
+				}
+			}
+			return false
+		}() {
+			continue
+		}
+		pick(m, func(k string) bool {
+			return bareName(k) == bareName(m) && resultSig[k] != "" && resultSig[k] == baseResults[m]
 		})
 	}
 	sort.Strings(aliasNotes)
